@@ -33,6 +33,11 @@ THOROUGH_CONFIGS = [C.NO_CHARWISE, C.NO_CACHE, C.NO_FIX, C.NO_TAG, C.MINIMAL]
 QUICK_CONFIGS = [C.NO_CHARWISE, C.NO_CACHE, C.NO_FIX]
 
 
+def run_trainer_shapes(chk, w):
+    """the trainer-side rules of this module alone (for properties that need the produced vector shapes: C11)"""
+    _trainer_rules(chk, w)
+
+
 def run(chk):
     w = C.world_for(chk)
     # the function a trained model computes is the one Predictor::predict evaluates: every structural scoring rule of C01
@@ -43,8 +48,21 @@ def run(chk):
     if chk.config != "W":
         # feature configurations of crate vaporetto alone: the predictor side only (the trainer is not compiled there)
         return
+    _trainer_rules(chk, w)
+
+
+def _trainer_rules(chk, w):
     from . import ctors as _ctors9
     _ctors9.run(chk, w, only=["model::Model::new", "DictModel::new"])
+    # the predictor adds the weight of feature f at boundary i exactly when the trainer's feature extraction emits f for i: the
+    # feature loops (window ranges, relative positions, all dictionary matches incl. suffixes) are the other half of the function
+    # the model computes (shared with C10)
+    # (one closure when both kinds go through a shared generic helper)
+    plain_records(chk, w, T + "::train", 1)
+    plain_records(chk, w, "vaporetto::tag_trainer::TagTrainer::train_tag", 1)
+    from . import c10 as _c10f
+    chk.rule("R10.3", "feature loop forms, char/type twins, dictionary feature positions and guards (shared with C10)")
+    _c10f.r103(chk, w)
     for rid, txt in (("R09.1", "kind consistency char<->type"), ("R09.2", "arm forms and twins"),
                      ("R09.3", "dictionary role flow"), ("R09.4", "bias provenance")):
         chk.rule(rid, txt)
@@ -236,7 +254,7 @@ def r093(chk, w, b, it, outs, rn):
         for a in e[3]:
             if a[0] == "agg" and a[1].startswith("closure:"):
                 cb = w.body(a[1][len("closure:"):])
-                if cb is not None and any((cfgmod.callee(t) or "").endswith("first_mut") for _, t in cfgmod.calls(cb)):
+                if cb is not None and (any((cfgmod.callee(t) or "").endswith("first_mut") for _, t in cfgmod.calls(cb)) or "WordWeightRecord" in cb.locals[0]["ty"]):
                     cl = cb
     n0 = 0
     if cl is None:
@@ -263,10 +281,21 @@ def r093(chk, w, b, it, outs, rn):
     size = set()
     for x in couts:
         nz = forms.Normalizer(ci, x)
+        idx_forms = {}
         for e in x.trace[n0:]:
-            if e[0] == "store" and e[2][-1][0] == "f" and e[2][-1][1] in ("[first]", "[last]"):
+            if e[0] == "call" and e[2] and "IndexMut" in e[2] and len(e[3]) > 1 and e[3][1][0] != "agg":
+                idx_forms["ret:%d" % e[1]] = C.show_arg(nz, e[3][1])
+        for e in x.trace[n0:]:
+            slot = e[2][-1][1] if e[0] == "store" and e[2][-1][0] == "f" else None
+            if slot is not None and slot not in ("[first]", "[last]") and re.fullmatch(r"\[.*\]", str(slot)):
+                # `weights[0] = ..` / `weights[word_len] = ..` (the vector has word_len + 1 entries): the first / last entry
+                inner = str(slot)[1:-1]
+                f_ = "0" if inner == "0" else forms.show(nz.form(absint.SYM(inner))) if inner.startswith("ret:") else idx_forms.get(inner, inner)
+                LEN_ = r"<core::str::iter::Chars as core::iter::traits::iterator::Iterator>::count\(str::chars\(&?[^()]*\)\)"
+                slot = "[first]" if f_ == "0" else "[last]" if re.fullmatch(LEN_, f_) else None
+            if slot in ("[first]", "[last]"):
                 m = re.search(r"\[([^\]]*)\]\.(\d)$", nz.value_atom(e[3]))
-                roles[e[2][-1][1]] = m.group(2) if m else "?"
+                roles[slot] = m.group(2) if m else "?"
                 if m:
                     bucket.add(m.group(1))
             if e[0] == "call" and e[2] == "[T]::fill":
@@ -328,6 +357,45 @@ def r091_new(chk, w):
             tn = [d["name"] for d in sorted((d for d in tb.debug if d["arg"]), key=lambda d: d["arg"])][:4]
             chk.ob("R09.1", "TagTrainer::new:param-kinds", [x.split("_")[0] for x in tn] == ["char", "char", "type", "type"], "TagTrainer::new parameters are %s" % tn, site=C.site(tb))
     chk.floor("R09.1", "Trainer::new fields", n, 4)
+
+
+def plain_records(chk, w, fn, floor):
+    """R09.5: the n-gram records of the model are built from the learned (n-gram, weight vector) pairs as they are: the weight
+    vector keeps the length its arm gave it (R09.2) - the predictor's placement arithmetic and its fixed-length fast path rely on it"""
+    from . import fmt as _fmt
+    chk.rule("R09.5", "NgramData / TagNgramData records hold the learned (ngram, weights) pair unchanged")
+    n = 0
+    for k in C.closure_keys(w, fn):
+        cb = w.body(k)
+        if cb is None or "NgramData" not in cb.locals[0]["ty"]:
+            continue
+        n += 1
+        ci = absint.Interp(w, cb, models=C.effects.EXTRA_MODELS)
+        ok = True
+        why = []
+        for x in ci.run(0):
+            if x.kind != "return":
+                ok = False
+                why.append(x.kind)
+                continue
+            v = ci.resolve(x, x.value_at((("L", 0),)))
+            calls = [e[2] for e in x.trace if e[0] == "call"]
+            d = dict(v[2]) if v[0] == "agg" else {}
+            good = v[0] == "agg" and ci.resolve(x, d.get("ngram")) == absint.SYM("arg2.0") and ci.resolve(x, d.get("weights")) == absint.SYM("arg2.1") and not calls
+            if not good:
+                ok = False
+                why.append("returns %s, calls %s" % (str(v)[:120], calls))
+        chk.ob("R09.5", "%s:record[%d]:plain" % (fn.split("::")[-1], n - 1), ok,
+               "a closure of %s builds an n-gram record that is not simply {ngram: pair.0, weights: pair.1} (%s)" % (fn, "; ".join(why)[:300]), site=C.site(cb), sample={"closure": k})
+    b = C.body(w, fn)
+    if n == 0:
+        # explicit loops instead of closures: no call that removes / reorders entries of a weight vector in the function
+        bad = [cfgmod.callee(t) for _, t in cfgmod.calls(b) if (cfgmod.callee(t) or "").startswith("alloc::vec::Vec") and (cfgmod.callee(t) or "").split("::")[-1] in _fmt.SHRINKERS
+               and t["args"] and "i32" in b.locals[(t["args"][0].get("move") or t["args"][0].get("copy") or {"local": 0})["local"]]["ty"]]
+        has = any(s_["k"] == "assign" and s_["rv"]["k"] == "aggr" and "NgramData" in str(s_["rv"].get("adt")) for bl in b.blocks for s_ in bl["stmts"])
+        chk.ob("R09.5", "%s:records-inline" % fn.split("::")[-1], has and not bad, "%s builds its n-gram records inline and shrinks weight vectors with %s" % (fn, bad) if has else "%s builds no n-gram record" % fn, site=C.site(b))
+    else:
+        chk.floor("R09.5", "record closures of %s" % fn.split("::")[-1], n, floor)
 
 
 def tag_loop_body(w, fn):
